@@ -189,11 +189,15 @@ PROPS = {
                 "its rolled-back transactions must give the same contents digest and the same number of reachable pages after every commit; "
                 "(c) after every call that returned an error the transaction's whole view is re-read and must equal the unchanged model; "
                 "(d) on a third of the histories: every mutator (put, delete, create/get-or-create/delete bucket on Tx and on every Bucket, commit) "
-                "through a read-only transaction must return ReadOnlyTx, and neither that nor open+close may change the file's bytes. "
+                "through a read-only transaction - on handles looked up by name AND on handles handed out by the iterators - must return ReadOnlyTx, and neither "
+                "that nor open+close (with the creation options and with three other initial page counts) may change the file's bytes; (e) on a fifth of "
+                "the histories the last commit is made to fail by an injected write error (first, middle, last data write, header write; nothing written): "
+                "the prior state must stay current, the handle's shared bookkeeping must be identical, and the retried transaction must commit soundly. "
                 "non-trivial = history with at least one rolled-back transaction whose before/after state was compared.",
-        "run": generic(thorough_profiles=("verif-rel",)),
+        "run": generic(thorough_profiles=("verif-rel",), env=SHIM_ENV, pre=build_shim),
         "floors": {"any": {"rollbacks_checked(file bytes + shared state)": 50, "twin_runs": 20, "read_only_mutator_calls": 500,
-                           "error_returning_calls_followed_by_full_verification": 50}},
+                           "error_returning_calls_followed_by_full_verification": 50,
+                           "commits_failed_by_injected_write_error_and_checked_for_traces": 20}},
         "assumptions": ["physical page ids / high-water mark are not compared between twins (HashMap iteration order makes allocation order vary between identical runs)"],
     },
     "C12": {
